@@ -28,6 +28,15 @@ thread_local! {
         let mut f = Facts::default();
         for i in 1..=NT_MAX {
             f.terms.push(TermFact { id: i, name: format!("t{i}"), obsolete: i % 7 == 3, replacement: None });
+            // two levels below HP:0000001: every fifth term is a modifier root, the term after it its child, the
+            // others are phenotype terms below HP:0000118 (which terms of a set are modifiers must not matter)
+            match i {
+                1 => {}
+                118 => f.edges.push((118, 1)),
+                _ if i % 5 == 0 => f.edges.push((i, 1)),
+                _ if i % 5 == 1 && i > 5 && i - 1 != 118 => f.edges.push((i, i - 1)),
+                _ => f.edges.push((i, 118)),
+            }
         }
         // a few records of every kind (set similarity / clustering must not depend on annotations)
         for k in 0..3usize {
@@ -587,7 +596,7 @@ impl Property for C17 {
         "C17"
     }
     fn rule(&self) -> String {
-        "Generated: n in 2..=24 (thorough 40) input sets with pairwise different contents, in one case of four overlapping (mostly singletons, some with 2-3 terms, in one case of eight one input with 33-47 terms, in one case of ten one input is the empty set) over a flat 96-term ontology, handed over as a Vec or as iterators without an exact size hint (filter, chain, map_while); for single/complete/average a generated symmetric table of initial distances (distinct values, or few values so that ties are frequent; shifted so that distances are all positive, mixed-sign, all negative or touch zero; in one case of five some pairs - for n <= 6 sometimes all - are infinitely far apart, +inf or -inf but never both; in one case of three all distances are scaled by 10^e, e in -45..=30, so that they lie far below f32::EPSILON, among the subnormal numbers, or far above 1; one further class scales them so that the largest is 3e38: all finite, but the sum of two distances can exceed f32::MAX); for union a symmetric pseudo-random distance that is a function of the two sets' contents, so merged sets get fresh values. Oracle = validity predicate simulated along the library's own merge choices (ties admit several dendrograms): exactly n-1 merges; each merge joins two live, different clusters (inputs or earlier merges n+k), so every input and intermediate cluster is merged exactly once and one cluster remains; the reported distance equals the pair's current distance bit for bit and no live pair is strictly closer; distances to the new cluster follow the method (min / max / mean of the two parts in f32 / content function of the union); len adds up and is n at the last merge; indicies() is a permutation of 0..n; cluster(), iter(), &linkage and into_cluster() agree, also when read from the back (rev) or from both ends in a generated order of next / next_back / nth(k) / nth_back(k) calls on the iterator itself, with len() equal to the number of merges left at every step; the first callback invocation asks every unordered pair of inputs exactly once (later invocations, which also pair the new set with itself, are not constrained). evaluations = clusterings. Non-trivial = n >= 4 and some merge joins two earlier clusters; distinct by hash of the case.".into()
+        "Generated: n in 2..=24 (thorough 40) input sets with pairwise different contents, in one case of four overlapping (mostly singletons, some with 2-3 terms, in one case of eight one input with 33-47 terms, in one case of ten one input is the empty set) over 96 terms of a two-level ontology in which two terms in five are modifier terms, handed over as a Vec or as iterators without an exact size hint (filter, chain, map_while); for single/complete/average a generated symmetric table of initial distances (distinct values, or few values so that ties are frequent; shifted so that distances are all positive, mixed-sign, all negative or touch zero; in one case of five some pairs - for n <= 6 sometimes all - are infinitely far apart, +inf or -inf but never both; in one case of three all distances are scaled by 10^e, e in -45..=30, so that they lie far below f32::EPSILON, among the subnormal numbers, or far above 1; one further class scales them so that the largest is 3e38: all finite, but the sum of two distances can exceed f32::MAX); for union a symmetric pseudo-random distance that is a function of the two sets' contents, so merged sets get fresh values. Oracle = validity predicate simulated along the library's own merge choices (ties admit several dendrograms): exactly n-1 merges; each merge joins two live, different clusters (inputs or earlier merges n+k), so every input and intermediate cluster is merged exactly once and one cluster remains; the reported distance equals the pair's current distance bit for bit and no live pair is strictly closer; distances to the new cluster follow the method (min / max / mean of the two parts in f32 / content function of the union); len adds up and is n at the last merge; indicies() is a permutation of 0..n; cluster(), iter(), &linkage and into_cluster() agree, also when read from the back (rev) or from both ends in a generated order of next / next_back / nth(k) / nth_back(k) calls on the iterator itself, with len() equal to the number of merges left at every step; the first callback invocation asks every unordered pair of inputs exactly once (later invocations, which also pair the new set with itself, are not constrained). evaluations = clusterings. Non-trivial = n >= 4 and some merge joins two earlier clusters; distinct by hash of the case.".into()
     }
     fn assumptions(&self) -> Vec<String> {
         vec![
